@@ -113,7 +113,7 @@ package ctxio
 
 // ---- ReadBytes
 
-//@ func (*Conn).ReadBytes$1 {C02 C16 C17 C18 | safety: C10}
+//@ func (*Conn).ReadBytes$1 {C02 C03 C10 C11 C16 C17 C18 | safety: C10}
 //@   requires [nn] cstruct(*c) && *ch != nil
 //@   modifies sockOff, bufLo, bufHi, gRdCalls, gSends, gSentVal, gSentErr
 //@   ghostset at send#1 : gSends = gSends + 1
@@ -121,12 +121,12 @@ package ctxio
 //@   ghostset at send#1 : gSentErr = sent.err
 //@   ensures [once C16] gSends == old(gSends) + 1 && gRdCalls == old(gRdCalls) + 1
 //@   ensures [wf C18] old(cpos(*c)) ==> cpos(*c)
-//@   ensures [front C02 C18] (forall i int :: 0 <= i && i < len(gSentVal) ==> gSentVal[i] == stream((*c).conn, old(bufLo)[(*c).reader] + i)) && bufLo[(*c).reader] == old(bufLo)[(*c).reader] + len(gSentVal)
-//@   ensures [delim C02 C10 C11] gSentErr == nil ==> len(gSentVal) >= 1 && gSentVal[len(gSentVal) - 1] == *delim && (forall i int :: 0 <= i && i < len(gSentVal) - 1 ==> gSentVal[i] != *delim)
-//@   assert [reader C02 C18] at call(ReadBytes)#1 : arg0 == (*c).reader && arg1 == *delim
+//@   ensures [front C02 C03 C10 C11 C18] (forall i int :: 0 <= i && i < len(gSentVal) ==> gSentVal[i] == stream((*c).conn, old(bufLo)[(*c).reader] + i)) && bufLo[(*c).reader] == old(bufLo)[(*c).reader] + len(gSentVal)
+//@   ensures [delim C02 C03 C10 C11] gSentErr == nil ==> len(gSentVal) >= 1 && gSentVal[len(gSentVal) - 1] == *delim && (forall i int :: 0 <= i && i < len(gSentVal) - 1 ==> gSentVal[i] != *delim)
+//@   assert [reader C02 C03 C10 C11 C18] at call(ReadBytes)#1 : arg0 == (*c).reader && arg1 == *delim
 //@   assert [chan C16] at send#1 : chan == *ch
 
-//@ func (*Conn).ReadBytes {C02 C10 C11 C16 C17 C18 | safety: C10}
+//@ func (*Conn).ReadBytes {C02 C03 C10 C11 C16 C17 C18 | safety: C10}
 //@   requires [nn] cstruct(c) && ctx != nil
 //@   modifies dlRpast, dlRzero, dlRctx, helper, gDlFail, gCancelled, gCtxErr, sockOff, bufLo, bufHi, gRdCalls, gSends, gSentVal, gSentErr
 //@   ghostset at call(SetReadDeadline)#1 : gDlFail = (res0 != nil)
@@ -147,6 +147,6 @@ package ctxio
 //@   ensures [joined C16 C17] !gDlFail ==> helper != 1
 //@   ensures [reset C17] gCancelled && !gDlFail ==> dlRzero[c.conn] && !dlRpast[c.conn] && result1 == gCtxErr && result0 == nil
 //@   ensures [wf C18] old(cpos(c)) && !gDlFail ==> cpos(c)
-//@   ensures [delim C02 C10 C11] result1 == nil ==> len(result0) >= 1 && result0[len(result0) - 1] == delim && (forall i int :: 0 <= i && i < len(result0) - 1 ==> result0[i] != delim)
-//@   ensures [front C02 C18] !gCancelled && !gDlFail ==> (forall i int :: 0 <= i && i < len(result0) ==> result0[i] == stream(c.conn, old(bufLo)[c.reader] + i)) && bufLo[c.reader] == old(bufLo)[c.reader] + len(result0)
+//@   ensures [delim C02 C03 C10 C11] result1 == nil ==> len(result0) >= 1 && result0[len(result0) - 1] == delim && (forall i int :: 0 <= i && i < len(result0) - 1 ==> result0[i] != delim)
+//@   ensures [front C02 C03 C10 C11 C18] !gCancelled && !gDlFail ==> (forall i int :: 0 <= i && i < len(result0) ==> result0[i] == stream(c.conn, old(bufLo)[c.reader] + i)) && bufLo[c.reader] == old(bufLo)[c.reader] + len(result0)
 //@   ensures [fail C17] gDlFail ==> result0 == nil && result1 != nil
